@@ -4,7 +4,7 @@
    state whose components were enforced satisfies the compound bounds whenever every component space
    obeys "enforce then satisfies".  Props/C13.v had these for two components only. *)
 From Coq Require Import ZArith NArith List Bool Floats.
-From OX Require Import Numerics.FloatBits Gen.Consts Spaces.SpacesF Spaces.SpacesFProofs.
+From OX Require Import Numerics.FloatBits Numerics.FloatOrder Gen.Consts Spaces.SpacesF Spaces.SpacesFProofs.
 Import ListNotations.
 Open Scope float_scope.
 
@@ -240,17 +240,68 @@ Proof.
 Qed.
 
 (* C11 lifted: if every component's samples pass its own bounds check, every compound sample passes the
-   compound bounds check - for any number of components, any stream, any rejection-loop fuel *)
+   compound bounds check - for any number of components, any rejection-loop fuel, and any class Q of streams
+   that sampling preserves (Q = "every word is a u64" for the box instance below) *)
+Variable Q : list N -> Prop.
 Definition smp_sat_law (s : space) : Prop :=
-  forall us x rest, sample acosF fuel s us = (Some (Ok x), rest) -> satisfies acosF s x = Ok true.
+  forall us x rest, Q us -> sample acosF fuel s us = (Some (Ok x), rest) -> satisfies acosF s x = Ok true /\ Q rest.
 
 Theorem compound_sample_then_satisfies : forall subs,
   Forall (fun sw => smp_sat_law (fst sw)) subs -> smp_sat_law (CS subs).
 Proof.
-  intros subs HF us r rest H. destruct (sample_CS_inv subs us r rest H) as [xs [-> Hc]].
-  assert (Hs : comp_sat acosF subs xs (map (fun _ => true) subs)).
-  { clear H. induction Hc as [us|s w subs us x mid xs rest Hx _ IH]; [constructor|].
-    inversion HF as [|? ? Hs HF']; subst. cbn [map]. constructor; [exact (Hs us x mid Hx)|apply IH; exact HF']. }
+  intros subs HF us r rest HQ H. destruct (sample_CS_inv subs us r rest H) as [xs [-> Hc]].
+  assert (Hs : comp_sat acosF subs xs (map (fun _ => true) subs) /\ Q rest).
+  { clear H. induction Hc as [us|s w subs us x mid xs rest Hx _ IH]; [split; [constructor|exact HQ]|].
+    inversion HF as [|? ? Hs HF']; subst. destruct (Hs us x mid HQ Hx) as [Hsat Hmid].
+    destruct (IH HF' Hmid) as [Hrest HQr]. split; [|exact HQr]. cbn [map]. constructor; assumption. }
+  destruct Hs as [Hs HQr]. split; [|exact HQr].
   rewrite (satisfies_CS_n acosF subs xs _ Hs). rewrite forallb_all_true. reflexivity.
 Qed.
 End Sampling.
+
+(* instance: boxes.  A sampled R^n state passes the R^n bounds check, for every stream of u64 words. *)
+Definition u64s (us : list N) : Prop := Forall (fun u => (u < 2^64)%N) us.
+
+Lemma rv_sample_aux_sat : forall n i bs us l rest, u64s us ->
+  rv_sample_aux n i bs us = (Ok l, rest) ->
+  rv_satisfies_aux n bs l = Ok true /\ length l = n /\ u64s rest.
+Proof.
+  induction n as [|n IH]; intros i bs us l rest HQ H; cbn [rv_sample_aux] in H.
+  - inversion H; subst. split; [reflexivity|split; [reflexivity|exact HQ]].
+  - destruct bs as [|[lo hi] bs]; [discriminate|].
+    destruct (negb (fis_finite lo) || negb (fis_finite hi)); [discriminate|].
+    destruct (fge lo hi); [discriminate|].
+    destruct us as [|u us]; [discriminate|]. inversion HQ as [|? ? Hu HQ']; subst.
+    destruct (rand_range u lo hi) as [x| |e] eqn:Er; try discriminate.
+    destruct (rv_sample_aux n (i + 1)%N bs us) as [[r| |e] rest0] eqn:Es; try discriminate.
+    inversion H; subst. destruct (IH _ _ _ _ _ HQ' Es) as [Hs [Hl Hr]].
+    destruct (rand_range_in u lo hi x Hu Er) as [L1 L2].
+    destruct (fle_not_nan _ _ L1) as [_ Nx].
+    cbn [rv_satisfies_aux length].
+    change (fgt (x - EPS_f)%float hi) with (flt hi (x - EPS_f)%float).
+    rewrite (fle_flt_false _ _ (fle_trans _ _ _ (fsub_pos_le x Nx) L2)).
+    rewrite (fle_flt_false _ _ (fle_trans _ _ _ L1 (fadd_pos_ge x Nx))).
+    split; [exact Hs|split; [congruence|exact Hr]].
+Qed.
+
+Theorem rv_sample_then_satisfies : forall acosF fuel dim bs frac,
+  smp_sat_law acosF fuel u64s (RV dim bs frac).
+Proof.
+  intros acosF fuel dim bs frac us x rest HQ H. cbn [sample] in H.
+  destruct (rv_sample_aux (N.to_nat dim) 0 bs us) as [[l| |e] rest0] eqn:Es; try discriminate.
+  inversion H; subst. destruct (rv_sample_aux_sat _ _ _ _ _ _ HQ Es) as [Hs [Hl Hr]].
+  split; [|exact Hr]. cbn [satisfies]. unfold rv_satisfies. rewrite Hl, N2Nat.id, N.eqb_refl. exact Hs.
+Qed.
+
+(* every compound tree of boxes: a successful sample passes the compound bounds check *)
+Inductive box_tree : space -> Prop :=
+| bt_rv : forall dim bs frac, box_tree (RV dim bs frac)
+| bt_cs : forall subs, Forall (fun sw => box_tree (fst sw)) subs -> box_tree (CS subs).
+
+Fixpoint box_tree_sample_law acosF fuel (s : space) (H : box_tree s) {struct H} : smp_sat_law acosF fuel u64s s.
+Proof.
+  destruct H as [dim bs frac|subs HF].
+  - apply rv_sample_then_satisfies.
+  - apply compound_sample_then_satisfies.
+    induction HF as [|sw subs' Hsw _ IH]; constructor; [exact (box_tree_sample_law acosF fuel _ Hsw)|exact IH].
+Qed.
